@@ -116,9 +116,18 @@ class Inventory(ast.NodeVisitor):
         self.generic_visit(node)
 
     def _store(self, t: ast.AST):
-        """subscript / attribute stores on a bare name (module-level object mutated through it)"""
+        """subscript / attribute stores on a bare name (module-level object mutated through it); a store through `cls`
+        (or through a class name) inside a method writes a class attribute, which every instance and every call shares"""
         if isinstance(t, (ast.Subscript, ast.Attribute)) and isinstance(t.value, ast.Name) and t.value.id not in ("self", "cls"):
             self.mutated.add(t.value.id)
+            if self.func_depth > 0 and isinstance(t, ast.Attribute) and t.value.id in ALL_CLASSES:
+                self.cells.append((self.module + "." + t.value.id, t.attr + " (assigned in a method)", "mutable"))
+        if self.func_depth > 0 and isinstance(t, ast.Attribute) and isinstance(t.value, ast.Name) and t.value.id == "cls":
+            scope = self.module + ("." + ".".join(self.class_stack) if self.class_stack else "")
+            self.cells.append((scope, t.attr + " (assigned through cls)", "mutable"))
+        if self.func_depth > 0 and isinstance(t, ast.Subscript) and isinstance(t.value, ast.Attribute) and isinstance(t.value.value, ast.Name) and t.value.value.id == "cls":
+            scope = self.module + ("." + ".".join(self.class_stack) if self.class_stack else "")
+            self.cells.append((scope, t.value.attr + " (item assigned through cls)", "mutable"))
 
     def visit_Delete(self, node: ast.Delete):
         for t in node.targets:
@@ -128,6 +137,16 @@ class Inventory(ast.NodeVisitor):
     def visit_Call(self, node: ast.Call):
         if isinstance(node.func, ast.Attribute) and node.func.attr in MUTATORS and isinstance(node.func.value, ast.Name) and node.func.value.id not in ("self", "cls"):
             self.mutated.add(node.func.value.id)
+        # cls.x.append(...), ClassName.x.update(...), self.__class__.x…: a class attribute mutated in place
+        if isinstance(node.func, ast.Attribute) and node.func.attr in MUTATORS and isinstance(node.func.value, ast.Attribute):
+            base = node.func.value
+            root = dotted(base.value)
+            if root == "cls" or root in ALL_CLASSES or root.endswith("__class__") or root.startswith("type("):
+                self.cells.append((self.module, f"{root}.{base.attr} (mutated in place)", "mutable"))
+            # self.x.append where x is a CLASS-level mutable (declared in the class body, never assigned in __init__) is caught
+            # by the class-body classification below (constCollection + mutated)
+            if root == "self":
+                self.mutated.add(base.attr)
         self.generic_visit(node)
 
     # ---- scopes
@@ -183,15 +202,18 @@ class Inventory(ast.NodeVisitor):
 
 
 STATELESS_CLASSES: set[str] = set()
+ALL_CLASSES: set[str] = set()
 
 
 def find_stateless_classes() -> None:
     """classes of the package none of whose methods stores to an attribute of self (instances carry no state)"""
     STATELESS_CLASSES.clear()
+    ALL_CLASSES.clear()
     for f in sorted(SRC.rglob("*.py")):
         tree = ast.parse(f.read_text())
         for c in ast.walk(tree):
             if isinstance(c, ast.ClassDef):
+                ALL_CLASSES.add(c.name)
                 stores = False
                 for n in ast.walk(c):
                     if isinstance(n, (ast.Assign, ast.AnnAssign, ast.AugAssign)):
